@@ -106,39 +106,55 @@ func c20Run(w *tr.Writer, tid int, s c20Scen) {
 			given += "/xmpp-websocket"
 		}
 	}
-	rec := tr.Rec{"ev": "addr", "tid": tid, "form": s.Form, "given": given, "givenport": port,
-		"kind": "other", "addr": "", "splitok": false, "hosteq": false, "port": -1}
-	var t xmpp.Transport
-	var err error
-	cfg := xmpp.TransportConfiguration{Address: given, Domain: "example.org"}
-	if s.Form.Who == "client" {
-		t = xmpp.NewClientTransport(cfg)
-	} else {
-		t, err = xmpp.NewComponentTransport(cfg)
-	}
-	switch tt := t.(type) {
-	case *xmpp.XMPPTransport:
-		rec["kind"] = "xmpp"
-		a := tt.Config.Address
-		rec["addr"] = a
-		h, p, e := net.SplitHostPort(a)
-		if e == nil {
-			pn, e2 := strconv.Atoi(p)
-			if e2 == nil && pn >= 0 && pn <= 65535 {
-				rec["splitok"] = true
-				rec["port"] = pn
-				rec["hosteq"] = h == host
+	observe := func(via string, t xmpp.Transport, err error) {
+		rec := tr.Rec{"ev": "addr", "tid": tid, "form": s.Form, "given": given, "givenport": port, "via": via,
+			"kind": "other", "addr": "", "splitok": false, "hosteq": false, "port": -1}
+		switch tt := t.(type) {
+		case *xmpp.XMPPTransport:
+			rec["kind"] = "xmpp"
+			a := tt.Config.Address
+			rec["addr"] = a
+			h, p, e := net.SplitHostPort(a)
+			if e == nil {
+				pn, e2 := strconv.Atoi(p)
+				if e2 == nil && pn >= 0 && pn <= 65535 {
+					rec["splitok"] = true
+					rec["port"] = pn
+					rec["hosteq"] = h == host
+				}
+			}
+		case *xmpp.WebsocketTransport:
+			rec["kind"] = "ws"
+			rec["addr"] = tt.Config.Address
+		default:
+			if err != nil && t == nil {
+				rec["kind"] = "refused"
 			}
 		}
-	case *xmpp.WebsocketTransport:
-		rec["kind"] = "ws"
-		rec["addr"] = tt.Config.Address
-	default:
-		if err != nil && t == nil {
-			rec["kind"] = "refused"
+		w.Emit(rec)
+	}
+	cfg := xmpp.TransportConfiguration{Address: given, Domain: "example.org"}
+	if s.Form.Who == "client" {
+		observe("transport", xmpp.NewClientTransport(cfg), nil)
+		// the same address through the public constructor: what a Client built from it would dial
+		cl, err := xmpp.NewClient(&xmpp.Config{TransportConfiguration: xmpp.TransportConfiguration{Address: given}, Jid: "user@example.org/r",
+			Credential: xmpp.Password("x")}, xmpp.NewRouter(), func(error) {})
+		if err == nil && cl != nil {
+			observe("newclient", xmpp.VerifClientTransport(cl), nil)
+		} else {
+			observe("newclient", nil, nil)
+		}
+	} else {
+		t, err := xmpp.NewComponentTransport(cfg)
+		observe("transport", t, err)
+		if s.Form.Scheme != "none" {
+			// through the Component itself: a ws: / wss: address is refused before anything is dialled
+			cp, _ := xmpp.NewComponent(xmpp.ComponentOptions{TransportConfiguration: xmpp.TransportConfiguration{Address: given, ConnectTimeout: 1},
+				Domain: "comp.example.org", Secret: "s"}, xmpp.NewRouter(), func(error) {})
+			cerr := cp.Resume()
+			observe("component", xmpp.VerifComponentTransport(cp), cerr)
 		}
 	}
-	w.Emit(rec)
 }
 
 func runC20(args []string) error {
